@@ -10,7 +10,9 @@ import time
 from facts import World, Broken
 
 VERIF = os.path.dirname(os.path.dirname(os.path.abspath(__file__)))
-WORK = os.path.join(VERIF, '.work')
+# harness runs may redirect the scratch area and the evidence directory (parallel self-tests); registered commands never set these
+WORK = os.environ.get('VERIF_WORK') or os.path.join(VERIF, '.work')
+EVDIR = os.environ.get('VERIF_EVIDENCE_DIR') or os.path.join(VERIF, 'evidence')
 
 
 def tree_hash(repo):
@@ -169,7 +171,7 @@ def run_check(prop, fn, tier, repo, explanation, assumptions, not_decided):
     t0 = time.time()
     seed = int(os.environ.get('VERIF_SEED', '0') or 0)
     rep = Report(prop, tier, repo)
-    ev_path = os.path.join(VERIF, 'evidence', prop + '.json')
+    ev_path = os.path.join(EVDIR, prop + '.json')
     os.makedirs(os.path.dirname(ev_path), exist_ok=True)
     try:
         fn(rep)
@@ -244,7 +246,7 @@ def run_check(prop, fn, tier, repo, explanation, assumptions, not_decided):
             samples.append({'rule': r.id, 'obligation': s})
     replay = None
     if new:
-        rdir = os.path.join(VERIF, '.work', 'reports')
+        rdir = os.path.join(WORK, 'reports')
         os.makedirs(rdir, exist_ok=True)
         replay = os.path.join(rdir, '%s.violations.json' % prop)
         with open(replay, 'w') as fh:
